@@ -25,6 +25,8 @@
  */
 #define _GNU_SOURCE
 #include <dlfcn.h>
+#include <pthread.h>
+#include <signal.h>
 #include <errno.h>
 #include <fcntl.h>
 #include <stdarg.h>
@@ -43,6 +45,7 @@
 struct act { char kind; long arg; };
 struct script { struct act a[MAXACT]; int n, pos; };
 
+#define NEXT0(ret, name, ...) static ret (*real)(__VA_ARGS__); if (!real) real = dlsym(RTLD_NEXT, name)
 static int inited = 0;
 static int trace_fd = -1;
 static struct script rd, w1, w2;
@@ -265,6 +268,20 @@ int getentropy(void *buf, size_t len) {
 }
 
 /* ---- recorded, never perturbed ---- */
+
+int setenv(const char *n, const char *v, int o) { init(); NEXT0(int, "setenv", const char *, const char *, int); tr("setenv %s", n); return real(n, v, o); }
+int unsetenv(const char *n) { init(); NEXT0(int, "unsetenv", const char *); tr("unsetenv %s", n); return real(n); }
+int putenv(char *s) { init(); NEXT0(int, "putenv", char *); tr("putenv %.40s", s); return real(s); }
+int chdir(const char *p) { init(); NEXT0(int, "chdir", const char *); tr("chdir %s", p); return real(p); }
+int pthread_create(pthread_t *t, const pthread_attr_t *a, void *(*f)(void *), void *arg) {
+    init(); NEXT0(int, "pthread_create", pthread_t *, const pthread_attr_t *, void *(*)(void *), void *);
+    tr("pthread_create"); return real(t, a, f, arg);
+}
+int sigaction(int sig, const struct sigaction *act, struct sigaction *old) {
+    init(); NEXT0(int, "sigaction", int, const struct sigaction *, struct sigaction *);
+    if (act) tr("sigaction %d", sig);
+    return real(sig, act, old);
+}
 
 char *getenv(const char *name) {
     static char *(*real)(const char *);
